@@ -151,9 +151,10 @@ func runCase(r *evid.Run, dir string, cs int64, idx int) {
 	highest := map[br]int{} // highest used index
 	utxo := map[wire.OutPoint]btcutil.Amount{}
 	usedAddrs := map[string]btcutil.Address{}
-	notCredited := map[string]bool{}   // custom-scope addresses: known after recovery, never credited or marked used
-	txAt := map[chainhash.Hash]int32{} // every tx paying to / spending from the wallet -> height
-	payHeights := map[int32]bool{}     // heights with at least one payment to the wallet
+	txWhat := map[chainhash.Hash]string{} // what each generated transaction is, for reports
+	notCredited := map[string]bool{}      // custom-scope addresses: known after recovery, never credited or marked used
+	txAt := map[chainhash.Hash]int32{}    // every tx paying to / spending from the wallet -> height
+	payHeights := map[int32]bool{}        // heights with at least one payment to the wallet
 	var plog []string
 	n := 0
 	// pre-creation blocks carry no wallet payments ("no earlier block could pay the wallet")
@@ -234,11 +235,12 @@ func runCase(r *evid.Run, dir string, cs int64, idx int) {
 			}
 			txAt[tx.TxHash()] = int32(h)
 			payHeights[int32(h)] = true
-			if nearBoundary {
+			if nearBoundary && b.scope != customScope { // only outputs the wallet credits can be spent later
 				reserved[wire.OutPoint{Hash: tx.TxHash(), Index: 0}] = true
 				boundaryOps = append(boundaryOps, bop{wire.OutPoint{Hash: tx.TxHash(), Index: 0}, h + 30})
 			}
 			plog = append(plog, fmt.Sprintf("h=%d pay %v/%d idx=%d (highest paid earlier %d, W=%d) amt=%d", h, b.scope, b.branch, idx, int(next[b])-1, c.W, amt))
+			txWhat[tx.TxHash()] = plog[len(plog)-1]
 			if idx+1 > foundThis[b] {
 				foundThis[b] = idx + 1
 			}
@@ -314,6 +316,7 @@ func runCase(r *evid.Run, dir string, cs int64, idx int) {
 				txs = append(txs, tx)
 				txAt[tx.TxHash()] = int32(h)
 				plog = append(plog, fmt.Sprintf("h=%d spend %v:%d (%s)", h, op.Hash.String()[:8], op.Index, what))
+				txWhat[tx.TxHash()] = plog[len(plog)-1] + "; the spent output: " + txWhat[op.Hash]
 			}
 		}
 		ch.Extend(txs...)
@@ -524,7 +527,7 @@ func runCase(r *evid.Run, dir string, cs int64, idx int) {
 			hh := hh
 			d, err := w.TxStore.TxDetails(tns, &hh)
 			if err != nil || d == nil {
-				bad = fmt.Sprintf("tx-not-recorded|transaction %v (block %d) paying to / spending from the wallet is not recorded", hh, ht)
+				bad = fmt.Sprintf("tx-not-recorded|transaction %v (block %d) paying to / spending from the wallet is not recorded [%s]", hh, ht, txWhat[hh])
 				return nil
 			}
 			if d.Block.Height != ht {
